@@ -218,11 +218,15 @@ class _SynthRule(Contract):
         return W.hooks()
 
     def cases(self):
-        return list(self.KEEP + self.REWRITE + '+')
+        # ':tied' = both arguments of a two-input gate are the SAME wire object
+        return list(self.KEEP + self.REWRITE + '+') + [o + ':tied' for o in '&|^n' if o in self.KEEP + self.REWRITE]
 
     def setup(self, I, case):
         from contracts import wiremodel as W
-        a, b = W.input_wire(I, 'a'), W.input_wire(I, 'b')
+        tied = case.endswith(':tied')
+        case = case.split(':')[0]
+        a = W.input_wire(I, 'a')
+        b = a if tied else W.input_wire(I, 'b')
         dest = W.new_wire(I, W.bw_of(a), None, hint='dest')
         I.st.assume(W.bw_of(a) == W.bw_of(b))
         # the rules are applied to synthesized (one-bit) netlists; wider wires: bounded family
